@@ -63,7 +63,11 @@ RULE_ADDED = (
               ' '
               'Round 17: one chain in sixteen is 6..17 certificates deep. '
               ' '
-              'Round 19: links that expired 1..200 seconds before the validation. ')
+              'Round 19: links that expired 1..200 seconds before the validation. '
+              ' '
+              'Round 20: one chain in eight signed with ecdsa-with-SHA384 / SHA512 certificate '
+              'by certificate; every certificate also validated with a root object that checked'
+              ' its own signature first. ')
 RULE = RULE + " " + RULE_ADDED.strip()
 ASSUMPTIONS = [
     "oracle: pv/oracle/certv2.py; X.509 parsing itself is shared (cryptography), signature "
@@ -431,6 +435,14 @@ def run_code(doc, root_cert, tmpdir):
             REVALIDATION.append("valid-under-an-unrelated-root-after-earlier-validation")
         if verdicts(cert.validate_and_get_values(root)) != verdicts(first):
             REVALIDATION.append("validation-after-other-root-differs")
+        if root_cert != "v1root":
+            # a root-of-trust object that has checked its own signature first, as the verify
+            # tool's does: what an object verified before is no part of what it certifies
+            root2 = HSMCertificateV2ElementX509.from_pem(g.pem(root_cert), "sgx_root",
+                                                         "sgx_root")
+            root2.is_valid(root2)
+            if verdicts(cert.validate_and_get_values(root2)) != verdicts(first):
+                REVALIDATION.append("root-object-that-checked-itself-first-judges-otherwise")
         # an element replaced in the object (add_element, same name): the next validation
         # judges the certificate as it is now - broken, then whole again
         if first.get("quote", (False,))[0]:
